@@ -1115,6 +1115,11 @@ func (x *Exec) trackResults(fr *Frame, st *State, cc *ssa.CallCommon, rets []Val
 				continue
 			}
 			st.ghostV["called|"+p.Label] = True
+			nc, _ := st.ghostV["ncalls|"+p.Label].(*Term)
+			if nc == nil {
+				nc = IntLit(0)
+			}
+			st.ghostV["ncalls|"+p.Label] = Add(nc, IntLit(1))
 			for j, r := range rets {
 				st.ghostV[fmt.Sprintf("res|%s|%d", p.Label, j)] = r
 			}
@@ -1160,6 +1165,9 @@ func (x *Exec) havocTracked(st *State) {
 	for _, p := range x.c.Propagates {
 		st.ghostV[failedKey(p.Label)] = Const(freshName("loop|failed|"+p.Label), BoolS)
 		st.ghostV["called|"+p.Label] = Const(freshName("loop|called|"+p.Label), BoolS)
+		nc := Const(freshName("loop|ncalls|"+p.Label), IntS)
+		st.assume(Le(IntLit(0), nc))
+		st.ghostV["ncalls|"+p.Label] = nc
 		for j, t := range x.trackedResultTypes()[p.Label] {
 			st.ghostV[fmt.Sprintf("res|%s|%d", p.Label, j)] = st.fresh(t, "loop|res|"+p.Label)
 		}
